@@ -297,6 +297,10 @@ class MinFlowDecomp(pathmodel.AbstractPathModelDAG): # Note that we inherit from
         
         # print("all_weights_list", sorted(all_weights_list))
 
+        # A weight that is zero up to the solver tolerance (e.g. a generating set element 4e-10 for float weights) 
+        # cannot be the weight of a path, and the solver rejects it as a constraint coefficient
+        all_weights_list = [weight for weight in all_weights_list if weight > sw.SolverWrapper.tolerance]
+
         given_weights_optimization_options = copy.deepcopy(self.optimization_options)
         given_weights_optimization_options["optimize_with_greedy"] = False
         utils.logger.info(f"{__name__}: Solving with given weights = {all_weights_list}")
